@@ -20,6 +20,7 @@ import ast
 import copy
 
 from ..astutil import AnalysisError, dotted, src, walk_local, walk_ordered, calls_in, norm, ends_in_raise, fail_closed
+from .. import pattern as P
 from ..rules import optable as ot
 
 PREP = "cohdl/_compiler/frontend/_prepare_ast.py"
@@ -102,25 +103,25 @@ def rule_dispatch(run):
     if len(calls) != 2:
         raise AnalysisError("binary dispatch: expected a forward and a reflected subcall")
     fw, rv = calls
-    ok = "type_lhs, default_op" in src(fw.args[0]) and src(fw.args[1]) == "[val_lhs, val_rhs]"
+    ok = "type_lhs, default_op" in P.T(fw.args[0]) and P.T(fw.args[1]) == "[val_lhs, val_rhs]"
     run.ob(ok, "apply_impl[ast.BinOp].overloaded_operator", file=prep.rel, line=fw.lineno, detail="forward", expected="getattr(type_lhs, default_op)(val_lhs, val_rhs)", found=src(fw)[:90])
-    ok = "type_rhs, reverse_op" in src(rv.args[0]) and src(rv.args[1]) == "[val_rhs, val_lhs]"
+    ok = "type_rhs, reverse_op" in P.T(rv.args[0]) and P.T(rv.args[1]) == "[val_rhs, val_lhs]"
     run.ob(ok, "apply_impl[ast.BinOp].overloaded_operator", file=prep.rel, line=rv.lineno, detail="reflected", expected="getattr(type_rhs, reverse_op)(val_rhs, val_lhs)", found=src(rv)[:90])
-    ok = any(isinstance(s, ast.If) and "is not NotImplemented" in src(s.test) and any(isinstance(r, ast.Return) for r in s.body) for s in ast.walk(f.node))
+    ok = any(isinstance(s, ast.If) and "is not NotImplemented" in P.T(s.test) and any(isinstance(r, ast.Return) for r in s.body) for s in ast.walk(f.node))
     run.ob(ok, "apply_impl[ast.BinOp].overloaded_operator", file=prep.rel, line=f.node.lineno, detail="fallback", expected="forward result returned unless it is NotImplemented", found="ok" if ok else "changed")
-    ok = any(isinstance(a, ast.Assert) and "is not NotImplemented" in src(a.test) for a in ast.walk(f.node))
+    ok = any(isinstance(a, ast.Assert) and "is not NotImplemented" in P.T(a.test) for a in ast.walk(f.node))
     run.ob(ok, "apply_impl[ast.BinOp].overloaded_operator", file=prep.rel, line=f.node.lineno, detail="both-notimplemented", expected="rejected", found="ok" if ok else "missing")
     ok = fw.lineno < rv.lineno
     run.ob(ok, "apply_impl[ast.BinOp].overloaded_operator", file=prep.rel, line=f.node.lineno, detail="order", expected="forward before reflected", found="ok" if ok else "swapped")
-    pri = any("issubclass(type_rhs, type_lhs)" in src(x) or "issubclass(type_rhs" in src(x) for x in ast.walk(f.node) if isinstance(x, (ast.If, ast.IfExp)))
+    pri = any("issubclass(type_rhs, type_lhs)" in P.T(x) or "issubclass(type_rhs" in P.T(x) for x in ast.walk(f.node) if isinstance(x, (ast.If, ast.IfExp)))
     run.ob(pri, "apply_impl[ast.BinOp].overloaded_operator", file=prep.rel, line=f.node.lineno, detail="subclass-priority",
            expected="reflected method first when type(rhs) is a proper subclass of type(lhs); no reflected attempt for operands of the same type",
            found="ok" if pri else "no test on the operand types precedes the forward call")
     ev = prep.func("PrepareAst.apply_impl.<locals>.single_compare.<locals>.evaluate")
     calls = [c for c in walk_ordered(ev.node) if isinstance(c, ast.Call) and dotted(c.func) == "self.subcall"]
-    ok = len(calls) == 2 and src(calls[0].args[1]) == "[val_lhs, val_rhs]" and "type_lhs, normal_name" in src(calls[0].args[0]) and src(calls[1].args[1]) == "[val_rhs, val_lhs]" and "type_rhs, reverse_name" in src(calls[1].args[0])
+    ok = len(calls) == 2 and P.T(calls[0].args[1]) == "[val_lhs, val_rhs]" and "type_lhs, normal_name" in P.T(calls[0].args[0]) and P.T(calls[1].args[1]) == "[val_rhs, val_lhs]" and "type_rhs, reverse_name" in P.T(calls[1].args[0])
     run.ob(ok, "apply_impl[ast.Compare].evaluate", file=prep.rel, line=ev.node.lineno, detail="forward/reflected", expected="type_lhs.normal(lhs, rhs) then type_rhs.reverse(rhs, lhs)", found="ok" if ok else "changed")
-    ok = any(isinstance(a, ast.Assert) and "is not NotImplemented" in src(a.test) for a in ast.walk(ev.node))
+    ok = any(isinstance(a, ast.Assert) and "is not NotImplemented" in P.T(a.test) for a in ast.walk(ev.node))
     run.ob(ok, "apply_impl[ast.Compare].evaluate", file=prep.rel, line=ev.node.lineno, detail="both-notimplemented", expected="rejected", found="ok" if ok else "missing")
     run.end()
 
@@ -139,7 +140,7 @@ def rule_compare_chain(run):
     if not loops:
         raise AnalysisError("chain loop of the Compare handler not found")
     l = loops[0]
-    ok = src(l.iter) == "zip(inp.ops, comparators, comparators[1:])"
+    ok = P.T(l.iter) == "zip(inp.ops, comparators, comparators[1:])"
     run.ob(ok, "apply_impl[ast.Compare]", file=prep.rel, line=l.lineno, detail="adjacent-pairs", expected="zip(inp.ops, comparators, comparators[1:])", found=src(l.iter))
     tv = [t.id for t in l.target.elts] if isinstance(l.target, ast.Tuple) else []
     sc = [x for x in ast.walk(l) if isinstance(x, ast.Call) and dotted(x.func) == "single_compare"]
@@ -147,7 +148,7 @@ def rule_compare_chain(run):
     run.ob(ok, "apply_impl[ast.Compare]", file=prep.rel, line=l.lineno, detail="link-operands", expected=f"single_compare({', '.join(tv)}) with the loop's own pair", found=src(sc[0]) if sc else "missing")
     # lhs may only be rebound to a wrapper of itself (re-use of the already evaluated operand)
     rebinds = [a for a in ast.walk(l) if isinstance(a, ast.Assign) and any(dotted(t) in tv[1:] for t in a.targets)]
-    ok = all(src(a) == f"{tv[1]} = out.Value({tv[1]}.result(), [])" for a in rebinds)
+    ok = all(P.T(a) == f"{tv[1]} = out.Value({tv[1]}.result(), [])" for a in rebinds)
     run.ob(ok, "apply_impl[ast.Compare]", file=prep.rel, line=l.lineno, detail="operand-not-replaced", expected="an operand is only re-wrapped (out.Value(lhs.result(), [])), never replaced by another operand", found="; ".join(src(a) for a in rebinds) or "none")
     rets = [r for r in walk_ordered(l) if isinstance(r, ast.Return)]
     ok = len(rets) == 1 and src(rets[0].value).startswith("out.Value(False")
@@ -169,14 +170,14 @@ def rule_boolop(run):
     if b is None:
         raise AnalysisError("anchor vanished: ast.BoolOp handler")
     for opn, first_test, first_val, empty_val, node_cls in (("And", "not all(const_vars)", "False", "True", "out.All"), ("Or", "any(const_vars)", "True", "False", "out.Any")):
-        br = [s for s in ast.walk(b) if isinstance(s, ast.If) and src(s.test) == f"isinstance(inp.op, ast.{opn})"]
+        br = [s for s in ast.walk(b) if isinstance(s, ast.If) and P.T(s.test) == f"isinstance(inp.op, ast.{opn})"]
         if not br:
             raise AnalysisError(f"BoolOp branch for {opn} not found")
         inner = [s for s in br[0].body if isinstance(s, ast.If)]
         ok = bool(inner) and src(inner[0].test) == first_test and src(inner[0].body[-1].value).startswith(f"out.Value({first_val}")
         run.ob(ok, f"apply_impl[ast.BoolOp].{opn}", file=prep.rel, line=br[0].lineno, detail="short-circuit", expected=f"if {first_test}: {first_val}", found=src(inner[0].test) if inner else "missing")
         el = inner[0].orelse[0] if inner and inner[0].orelse and isinstance(inner[0].orelse[0], ast.If) else None
-        ok = el is not None and src(el.test) == "len(runtime_vars) == 0" and src(el.body[-1].value).startswith(f"out.Value({empty_val}")
+        ok = el is not None and P.T(el.test) == "len(runtime_vars) == 0" and src(el.body[-1].value).startswith(f"out.Value({empty_val}")
         run.ob(ok, f"apply_impl[ast.BoolOp].{opn}", file=prep.rel, line=br[0].lineno, detail="neutral", expected=f"no run-time operand -> {empty_val}", found="ok" if ok else "changed")
         last = br[0].body[-1]
         ok = isinstance(last, ast.Return) and src(last.value).startswith(node_cls + "(runtime_vars")
@@ -212,16 +213,16 @@ def rule_fail_closed(run):
         raise AnalysisError("case loop of the Match handler not found")
     cvar = loop[0].target.id
     asserts = [a for a in loop[0].body if isinstance(a, ast.Assert)]
-    ok = any(src(a.test) == f"{cvar}.guard is None" for a in asserts)
+    ok = any(P.T(a.test) == f"{cvar}.guard is None" for a in asserts)
     run.ob(ok, "apply_impl[ast.Match]", file=prep.rel, line=loop[0].lineno, detail="guard-rejected", expected=f"assert {cvar}.guard is None (a guard is never silently ignored)", found="ok" if ok else "guards are ignored")
-    mas = [s for s in loop[0].body if isinstance(s, ast.If) and src(s.test) == f"isinstance({cvar}.pattern, ast.MatchAs)"]
-    ok = bool(mas) and any(isinstance(a, ast.Assert) and src(a.test) == f"{cvar}.pattern.pattern is None" for a in mas[0].body)
+    mas = [s for s in loop[0].body if isinstance(s, ast.If) and P.T(s.test) == f"isinstance({cvar}.pattern, ast.MatchAs)"]
+    ok = bool(mas) and any(isinstance(a, ast.Assert) and P.T(a.test) == f"{cvar}.pattern.pattern is None" for a in mas[0].body)
     run.ob(ok, "apply_impl[ast.Match]", file=prep.rel, line=(mas[0].lineno if mas else loop[0].lineno), detail="as-pattern-rejected",
            expected="`<pattern> as <name>` is rejected; only the bare wildcard/capture is the default branch", found="ok" if ok else "every MatchAs is treated as the wildcard")
     chain_last = [s for s in loop[0].body if isinstance(s, ast.If)][-1]
     ok = bool(chain_last.orelse) and isinstance(chain_last.orelse[-1], ast.Raise)
     run.ob(ok, "apply_impl[ast.Match]", file=prep.rel, line=chain_last.lineno, detail="other-patterns-rejected", expected="unsupported pattern kinds raise", found="raise" if ok else "falls through")
-    ok = any(isinstance(a, ast.Assert) and "default_body is None" in src(a.test) for a in asserts)
+    ok = any(isinstance(a, ast.Assert) and "default_body is None" in P.T(a.test) for a in asserts)
     run.ob(ok, "apply_impl[ast.Match]", file=prep.rel, line=loop[0].lineno, detail="default-last", expected="cases after the default are rejected", found="ok" if ok else "missing")
     cas = run.idx.mod(CAS)
     cd = cas.func("_ClassifyNames.visit_ClassDef")
@@ -248,8 +249,8 @@ def rule_bind(run):
         raise AnalysisError("bind_args loops not recognised")
     la = loops[1]
     avar = la.target.id
-    dup = [a for a in ast.walk(la) if isinstance(a, ast.Assert) and f"{avar} not in kwargs" in src(a.test)]
-    ok = len(dup) == 1 and src(dup[0].test) == f"{avar} not in kwargs"
+    dup = [a for a in ast.walk(la) if isinstance(a, ast.Assert) and f"{avar} not in kwargs" in P.T(a.test)]
+    ok = len(dup) == 1 and P.T(dup[0].test) == f"{avar} not in kwargs"
     run.ob(ok, "FunctionDefinition.bind_args", file=cas.rel, line=(dup[0].lineno if dup else la.lineno), detail="multiple-values",
            expected=f"assert {avar} not in kwargs (unconditional: CPython raises TypeError even if the callee has **kwargs)", found=src(dup[0].test) if dup else "missing")
     if dup:
@@ -262,7 +263,7 @@ def rule_bind(run):
     pa = [a for a in ast.walk(lp) if isinstance(a, ast.Assert)]
     ok = bool(pa) and src(pa[0].test) in ("posonly not in kwargs or self._kwarg is not None",)
     run.ob(ok, "FunctionDefinition.bind_args", file=cas.rel, line=lp.lineno, detail="positional-only-keyword", expected="positional-only name as keyword rejected unless it can go to **kwargs", found=src(pa[0].test) if pa else "missing")
-    t = src(f.node)
+    t = P.T(f.node)
     ok = "if self._vararg is None:\n    assert len(args) == 0" in t.replace("\n        ", "\n    ") or ("self._vararg is None" in t and "len(args) == 0" in t)
     run.ob(ok, "FunctionDefinition.bind_args", file=cas.rel, line=f.node.lineno, detail="surplus-positional", expected="assert len(args) == 0 when there is no *args", found="ok" if ok else "missing")
     ok = "self._kwarg is None" in t and "len(kwargs) == 0" in t
@@ -285,7 +286,7 @@ def rule_env(run):
     node = loops[0].body[0]
     order = []
     while isinstance(node, ast.If):
-        t = src(node.test)
+        t = P.T(node.test)
         if "nonlocal_dict" in t:
             order.append("nonlocal")
         elif "global_dict" in t:
@@ -296,7 +297,7 @@ def rule_env(run):
     dedup = [x for i, x in enumerate(order) if i == 0 or order[i - 1] != x]
     run.ob(dedup == ["nonlocal", "global", "builtins"], "_ScopeBase._capture_env", file=cas.rel, line=loops[0].lineno, detail="lookup-order", expected="nonlocal -> global -> builtins", found=" -> ".join(dedup))
     lv = loops[0].target.id
-    ok = f"result[{lv}] = nonlocal_dict[{lv}]" in src(loops[0]) and f"result[{lv}] = global_dict[{lv}]" in src(loops[0])
+    ok = f"result[{lv}] = nonlocal_dict[{lv}]" in P.T(loops[0]) and f"result[{lv}] = global_dict[{lv}]" in P.T(loops[0])
     run.ob(ok, "_ScopeBase._capture_env", file=cas.rel, line=loops[0].lineno, detail="values", expected="value taken from the dictionary that was tested", found="ok" if ok else "changed")
     run.end()
 
@@ -307,10 +308,10 @@ def rule_builtins(run):
     for name in ("min", "max"):
         f = m.func(f"{name}_replacement")
         first = f.node.body[0]
-        ok = isinstance(first, ast.If) and src(first.test) == "len(args) == 1" and src(first.body[0]) == "args = args[0]" and len(first.body) == 1 and not first.orelse
+        ok = isinstance(first, ast.If) and P.T(first.test) == "len(args) == 1" and P.T(first.body[0]) == "args = args[0]" and len(first.body) == 1 and not first.orelse
         run.ob(ok, f"{name}_replacement", file=m.rel, line=f.node.lineno, detail="single-argument-is-iterable", expected="if len(args) == 1: args = args[0]", found=src(first).replace("\n", " ")[:80])
         last = f.node.body[-1]
-        ok = isinstance(last, ast.Return) and src(last.value) == f"{name}(args)"
+        ok = isinstance(last, ast.Return) and P.T(last.value) == f"{name}(args)"
         run.ob(ok, f"{name}_replacement", file=m.rel, line=f.node.lineno, detail="delegates", expected=f"return {name}(args)", found=src(last))
     run.end()
 
@@ -346,7 +347,7 @@ def rule_siblings(run):
         raise AnalysisError("With/AsyncWith handlers not found")
     a = copy.deepcopy(aw.body)
     a = [_strip_calls(_Rename({"__aenter__": "__enter__", "__aexit__": "__exit__"}).visit(s), "translate_await") for s in a]
-    a = [s for s in a if not (isinstance(s, ast.Assert) and "is_async" in src(s))]
+    a = [s for s in a if not (isinstance(s, ast.Assert) and "is_async" in P.T(s))]
     wb = copy.deepcopy(w.body)
     # the synchronous handler has the extra cohdl.always special case in its item loop
     def drop_always(stmts):
@@ -355,7 +356,7 @@ def rule_siblings(run):
             if isinstance(s, ast.For):
                 body = []
                 for x in s.body:
-                    if isinstance(x, ast.If) and src(x.test) == "context is always":
+                    if isinstance(x, ast.If) and P.T(x.test) == "context is always":
                         body.extend(x.orelse)
                     else:
                         body.append(x)
